@@ -42,7 +42,6 @@ package relationtuple
 //@ func (*Mapper).FromTuple
 //@   trusted
 //@   requires m != nil && ctx != nil
-//@   requires[C13] no-nil-tuple: forall i in 0..len(ts) :: ts[i] != nil
 //@   modifies db
 //@   ensures[C17] read-only-mapper: m.ReadOnly ==> db == old(db)
 //@   ensures err == nil ==> len(res) == len(ts) && (forall i in 0..len(res) :: res[i] != nil)
